@@ -43,8 +43,8 @@ type CNode struct {
 		ID   string `json:"id"`
 		Name string `json:"name"`
 	} `json:"decl"`
-	line               int
-	file               string
+	line int
+	file string
 }
 
 type CLoc struct {
